@@ -19,11 +19,11 @@ XML_FAM = Family("c14-xml", [m.decode("latin-1") for m in XML_MENU], {"quick": 6
 # self-similar runs: references whose decoded bytes spell references again ('&', '#', 'x', digits, ';' in both notations)
 XML_SELF = [b"&#x26;", b"&#38;", b"&#x23;", b"&#35;", b"&#x39;", b"&#57;", b"&#x3b;", b"&#59;", b"&#x78;", b"&#120;"]
 XML_SELF_FAM = Family("c14-xml-self", [m.decode("latin-1") for m in XML_SELF], {"quick": 5, "thorough": 6})
-UNESC_FAM = Family("c14-unescape", ["%41", "%zz", "%", "%u0041", "+", "a", "%e9", "%0", "%00", "\\", "%2F", "\"", " ", ")", "(", "%25", "41"], {"quick": 4, "thorough": 5},
+UNESC_FAM = Family("c14-unescape", ["%41", "%zz", "%", "%u0041", "+", "a", "%e9", "%0", "%00", "\\", "%2F", "\"", " ", ")", "(", "%25", "41", "%ud83d", "%ude00"], {"quick": 4, "thorough": 5},
                    wraps=[(b"unescape('", b"')"), (b"x=unescape('", b"');y"), (b"unescape('", b"') unescape('%42')")])
 U16_FAM = Family("c14-utf16", ["a\x00", "\xe9\x00", "\x00\x00", "\x7f\x00", "\x1f\x00", "\xff\x00", "\x09\x00", "a", "\x00",
                                "h\x00t\x00t\x00p\x00:\x00/\x00/\x00"], {"quick": 7, "thorough": 8})
-STREAM_FAMS = ["xml", "esc", "mix", "ctx"]
+STREAM_FAMS = ["xml", "esc", "mix", "ctx", "pairs"]
 
 
 def xml_full_set():
@@ -85,6 +85,12 @@ def compare(rec, clause, fn, data, exp, w, typ, label):
     got = [(h.start, h.end, h.value) for h in hits]
     if exp:
         rec.mark("nontrivial", data)
+    if not hits or core.h64(data) % 4 == 0:
+        # every empty result, and a quarter of the others: the returned list is the caller's
+        ok2, mine = rec.guard("C14.total", w, len(data), trees.result_is_callers, fn, data, hits)
+        if ok2 and not mine:
+            rec.violation(clause + ".result-owned-by-caller", f"{label}|shared-result-list", w,
+                          f"{fn.__name__}({core.short(data, 60)}): after the caller appended to the returned list, the same call returns a different result", len(data))
     bad = [h for h in hits if h.type != typ or h.obfuscation != label]
     if bad:
         rec.violation(clause + ".label", f"{label}|type-or-label", w, f"{fn.__name__}: node typed {bad[0].type!r} labelled {bad[0].obfuscation!r}", len(data))
